@@ -47,13 +47,56 @@ ASSUMPTIONS = [
 ]
 
 
+KNOWN_GAP_EXAMPLE = [(0, 1), (0, 6), (0, 7), (0, 8), (0, 9), (1, 2), (1, 3), (1, 4), (1, 5), (1, 6), (1, 8), (1, 9), (2, 3), (2, 5), (2, 8),
+                     (3, 4), (3, 8), (3, 9), (4, 5), (4, 6), (4, 7), (4, 8), (4, 9), (5, 6), (5, 7), (5, 8), (5, 9), (6, 7), (6, 8), (6, 9),
+                     (7, 8), (7, 9)]
+
+
+def _pivot_gap(tab):
+    """does inverse_circuit's first Hadamard block meet a column on which no remaining row has a literal? (replicates the
+    block's bookkeeping on a copy; used only to *label* a violation with the call-site condition of the defect fixed by 898a575, and as a reach probe)"""
+    import graphiq.backends.stabilizer.functions.stabilizer as sfs
+    import graphiq.backends.stabilizer.functions.transformation as transform
+
+    t = sfs.canonical_form(tab.copy())
+    n = t.n_qubits
+    pivot = [0, 0]
+    for j in range(n):
+        pivot[1] = j
+        xl, yl, zl = sfs.pauli_type_finder(t.x_matrix, t.z_matrix, pivot)
+        if xl:
+            t = sfs.tab_row_swap(t, pivot[0], xl[0])
+        elif yl:
+            t = sfs.tab_row_swap(t, pivot[0], yl[0])
+        elif zl:
+            t = sfs.tab_row_swap(t, pivot[0], zl[-1])
+            if np.any(t.x_matrix[pivot[0], j + 1: n]) or np.any(t.z_matrix[pivot[0], j + 1: n]):
+                t = transform.hadamard_gate(t, j)
+        else:
+            return True
+        pivot[0] += 1
+    return False
+
+
 def gen_case(run_seed, tier):
     sz = stream(run_seed, "sizes")
     nmax = 7 if tier == "thorough" else 6
     if sz.random() < 0.2:
         nmax = 8  # a share of larger targets (rare emitter re-use patterns start at 6-8 vertices)
     aim_isolated = sz.random() < 0.1
-    if aim_isolated:
+    big10 = sz.random() < (0.1 if tier == "thorough" else 0.02)
+    aim_gap = sz.random() < 0.004
+    if aim_gap:
+        # the input on which the defect fixed by 898a575 (inverse_circuit pivot gap) was found: kept in the workload as a regression input
+        g, fam = (10, [tuple(e) for e in KNOWN_GAP_EXAMPLE]), "known-gap-example"
+    elif big10:
+        # 9-10 vertices (up to 5 emitters, 15 qubits): stabilizer-only judging
+        while True:
+            g = graphs.relabel(sz, graphs.er(sz, sz.choice([9, 10]), sz.choice([0.3, 0.45, 0.6])))
+            if graphs.is_connected(g):
+                break
+        fam = "er-9-10"
+    elif aim_isolated:
         g, fam = graphs.random_graph(sz, 1, min(nmax, 7), allow_isolated=True)
     elif nmax == 8:
         # larger connected random targets: emitter re-use patterns (an emitter freed by a mid-circuit measurement and
@@ -67,6 +110,8 @@ def gen_case(run_seed, tier):
         g, fam = graphs.random_graph(sz, 2, nmax, allow_isolated=False, fams=["er", "er", "path", "star", "cycle", "complete", "tree", "rgs", "union", "union", "union"])
     rep = sz.choice(["g", "g", "s", "dm", "s2"])
     backend = sz.choice(["stab", "stab", "dm"])
+    if g[0] > 8:
+        rep, backend = sz.choice(["g", "s"]), "stab"
     if g[0] > 5 and backend == "dm":
         backend = "stab"  # n photons + up to ~n/2 emitters: density matrices beyond 8 qubits take minutes per compile
     if g[0] > 6 and rep == "dm":
@@ -74,8 +119,11 @@ def gen_case(run_seed, tier):
     if aim_isolated and rep == "s2":
         rep = "g"
     det = sz.choice([0, 1, 2])
-    return {"n": g[0], "edges": [list(e) for e in g[1]], "family": fam, "rep": rep, "backend": backend, "det": det, "oseed": sz.randrange(10**9), "shuffle_edges": sz.random() < 0.3,
+    case = {"n": g[0], "edges": [list(e) for e in g[1]], "family": fam, "rep": rep, "backend": backend, "det": det, "oseed": sz.randrange(10**9), "shuffle_edges": sz.random() < 0.3,
             "solve_twice": sz.random() < 0.3, "shuffle_nodes": sz.random() < 0.3}
+    if aim_gap:
+        case.update(shuffle_edges=False, shuffle_nodes=False, solve_twice=False)
+    return case
 
 
 def simplify(case):
@@ -183,7 +231,20 @@ def run_case(case):
         ctx.probe("solver_with_dm_compiler")
     if det == "probabilistic":
         ctx.probe("solver_probabilistic")
+    import graphiq.backends.stabilizer.functions.stabilizer as sfs
+
+    gap_seen = []
+    real_inverse = sfs.inverse_circuit
+
+    def spy(tab):
+        try:
+            gap_seen.append(bool(_pivot_gap(tab)))
+        except Exception:
+            gap_seen.append(False)
+        return real_inverse(tab)
+
     try:
+        sfs.inverse_circuit = spy
         with OwnedRNG(random.Random(case["oseed"]), outcomes=OutcomeScript([], fallback=random.Random(case["oseed"] + 1)), ctx=ctx):
             solver = TimeReversedSolver(target=target, metric=metric, compiler=comp)
             solver.solve()
@@ -198,6 +259,11 @@ def run_case(case):
     except Exception as e:
         ctx.violate("unexpected_exception", 0, f"TimeReversedSolver on n={n} edges={edges} rep={case['rep']}: {type(e).__name__}: {e}", dict(sig, stage="solve", exc=type(e).__name__))
         return ctx.result(False, sample=case)
+    finally:
+        sfs.inverse_circuit = real_inverse
+    if any(gap_seen):
+        ctx.probe("inverse_circuit_pivot_gap_seen")
+        sig = dict(sig, inverse_circuit_pivot_gap=True)
     ctx.steps += 1
     ctx.log("solved", n, edges, case["rep"], case["backend"], case["det"], circ.n_emitters, len(circ.dag.nodes))
     try:
